@@ -12,6 +12,8 @@ import (
 	"bytes"
 	"fmt"
 	"io"
+	"os"
+	"runtime/pprof"
 	"strings"
 	"time"
 
@@ -141,9 +143,9 @@ const (
 	rPlain role = iota
 	rEnv
 	rHidden
-	rCopy          // rewritten: [copy]
-	rUnescape      // rewritten: [unescape]
-	rInlineCopy    // rewritten: [inline other, copy]
+	rCopy           // rewritten: [copy]
+	rUnescape       // rewritten: [unescape]
+	rInlineCopy     // rewritten: [inline other, copy]
 	rInlineUnescape // rewritten: [inline other, unescape]
 	numRoles
 )
@@ -841,6 +843,11 @@ func enumerate(ctx *seq.Ctx) {
 }
 
 func main() {
+	if p := os.Getenv("VERIF_CPUPROFILE"); p != "" {
+		f, _ := os.Create(p)
+		pprof.StartCPUProfile(f)
+		go func() { time.Sleep(20 * time.Second); pprof.StopCPUProfile(); f.Close(); os.Exit(0) }()
+	}
 	logger.SetLogLevel(logger.ErrorLevel)
 	// The serializer's buffer is 2 x defs.InputLogMaxRecordBytes, allocated per serializer. Every case uses a fresh
 	// serializer, so the limits are scaled to what the largest enumerated record needs (2 x 65537 bytes + fillers);
